@@ -244,6 +244,14 @@ Lemma write_remaining_length_too_long : forall n, 268435455 < n ->
   write_remaining_length n = Err PayloadTooLong.
 Proof. intros n H. unfold write_remaining_length, MAX_REMAINING. replace (268435455 <? n) with true by lia. reflexivity. Qed.
 
+(** the loop of write_remaining_length terminates within its fuel: OutOfFuel is unreachable *)
+Lemma write_remaining_length_no_out_of_fuel : forall n, write_remaining_length n <> Err OutOfFuel.
+Proof.
+  intros n H. destruct (N.le_gt_cases n 268435455) as [Hn | Hn].
+  - destruct (length_write_remaining n [] Hn) as (bs & Hw & _). rewrite Hw in H. discriminate.
+  - rewrite write_remaining_length_too_long in H by lia. discriminate.
+Qed.
+
 Lemma len_len_boundaries :
   len_len 0 = 1 /\ len_len 127 = 1 /\ len_len 128 = 2 /\ len_len 16383 = 2 /\ len_len 16384 = 3 /\
   len_len 2097151 = 3 /\ len_len 2097152 = 4 /\ len_len 268435455 = 4.
